@@ -194,6 +194,7 @@ def _alphabet_a(seed):
 
 
 _SUB_NAMES = ("SUB[H,CNOT,T]", "SUB[ISWAP^g,X]x2")
+_HEAVY_NAMES = ("CCZ", "CSWAP", "M3")
 # letters of the length-3 core (old-vs-new two-qubit count choice, partial CZ, ignored tag, measurement)
 _CORE3_NAMES = ("H(b)", "CNOT(a,b)", "CZ(a,b)", "CZ(b,c)^g", "nc:ISWAP(a,b)^g", "meas(a,b;m)")
 _CORE3_MORE = ("X(a)", "Y(c)^.5", "M1xM1(a,b)", "CNOT(b,a)", "ISWAP(a,b)", "SWAP(b,c)", "SQRT_ISWAP(b,c)", "FSim(a,c)", "ZZ(a,b)^g",
@@ -339,6 +340,11 @@ def _cases_compile(tier, seed, slow):
             continue
         idxs = list(range(nL + len(nat)))
         seqs = [()] + [(i,) for i in idxs] + list(itertools.product(idxs, repeat=2))
+        if tier == "quick":
+            # the three-qubit letters cost 30-70 ms per call: in the quick tier they are paired with the core letters only
+            heavy = set(_idx(_HEAVY_NAMES))
+            partners = heavy | set(_idx(_CORE3_NAMES)) | {nL}
+            seqs = [q for q in seqs if len(q) < 2 or not (set(q) & heavy) or set(q) <= partners]
         if not is_slow:
             core3 = _idx(_CORE3_NAMES) + [nL + k for k in range(min(2, len(nat)))]
             if tier == "thorough":
